@@ -83,6 +83,8 @@ def run(idx: ProgramIndex, rep: Report, tier: str):
     pseudo_targets(idx, rep)
     full_covariance_in_eval(idx, rep)
     wrapped_output_blocks(idx, rep)
+    component_kl_reduced(idx, rep)
+    prior_from_prior_mode(idx, rep)
     # C14-2
     vs = idx.find_class("_VariationalStrategy")
     m = 0
@@ -728,3 +730,77 @@ def wrapped_output_blocks(idx: ProgramIndex, rep: Report):
                     "no strategy returns a diagonal-only covariance in training mode" if d is None else ("the constructor rejects %s" % d.qualname) if ok else
                     "`%s` takes an off-diagonal block of the wrapped strategy's output, but %s.forward returns only the variances of the data part in training mode: the block loses K_xg - K_xb K_bb^-1 K_bg and the training-mode mean (and the prior block used by kl_divergence) is wrong; nothing restricts the wrapped strategy" % (" ".join(src(cross[0]).split())[:60], d.qualname), {})
     rep.floor("C14-14", "wrappers that slice off-diagonal blocks", n, 1)
+
+
+# ---- C14-2 (components) --------------------------------------------------------------------------------------------
+def component_kl_reduced(idx: ProgramIndex, rep: Report):
+    """A strategy that repeats its prior into one batch element per component (prior_distribution ... .repeat(self.<n>, ...)) and whose
+    forward sums the components under a flag has one KL per component in the inherited kl_divergence: the flag that removes the component
+    dimension from q(f) has to remove it from the KL as well."""
+    rep.rule("C14-2", "wrapper strategies sum the base KL over their configured task/latent dimension")
+    n = 0
+    for cls in _strategies(idx):
+        pd = cls.methods.get("prior_distribution")
+        fw = cls.methods.get("forward")
+        if pd is None or fw is None:
+            continue
+        if not any(isinstance(c, ast.Call) and isinstance(c.func, ast.Attribute) and c.func.attr == "repeat" for c in ast.walk(pd.node)):
+            continue
+        flags = {x.attr for i in ast.walk(fw.node) if isinstance(i, ast.If) for x in ast.walk(i.test) if isinstance(x, ast.Attribute) and chain(x.value) == fw.params[0] and "sum" in x.attr}
+        sums = any(isinstance(c, ast.Call) and isinstance(c.func, ast.Attribute) and c.func.attr == "sum" for i in ast.walk(fw.node) if isinstance(i, ast.If) for c in ast.walk(i))
+        if not flags or not sums:
+            continue
+        n += 1
+        kl = cls.methods.get("kl_divergence")
+        ok = kl is not None and any(f in src(kl.node) for f in flags) and any(isinstance(c, ast.Call) and isinstance(c.func, ast.Attribute) and c.func.attr == "sum" for c in ast.walk(kl.node))
+        rep.add("C14-2", "%s:%s.kl_divergence[components]" % (cls.module.name, cls.qualname), (kl or pd).where, ok,
+                "the KL is summed over the components under the flag that sums q(f) (self.%s)" % sorted(flags)[0] if ok else
+                "prior_distribution repeats the prior into one batch element per component and forward sums the components under self.%s, but the class inherits kl_divergence: one KL per component reaches the objective, which comes out as a vector none of whose reductions is the ELBO" % sorted(flags)[0], {})
+    rep.floor("C14-2", "strategies with a component batch", n, 1)
+
+
+# ---- C14-15 --------------------------------------------------------------------------------------------------------
+def _posterior_calls(fi: FuncInfo, e: ast.AST) -> List[ast.Call]:
+    """calls `self.model(...)` in the def-use closure of e inside fi"""
+    sn = fi.params[0]
+    out, seen, work = [], set(), [e]
+    while work:
+        x = work.pop()
+        for n in ast.walk(x):
+            if isinstance(n, ast.Call) and chain(n.func) == "%s.model" % sn:
+                out.append(n)
+            if isinstance(n, ast.Name) and n.id not in seen and n.id != sn:
+                seen.add(n.id)
+                for a in ast.walk(fi.node):
+                    if isinstance(a, ast.Assign):
+                        for t in a.targets:
+                            ts = t.elts if isinstance(t, ast.Tuple) else [t]
+                            if any(isinstance(q, ast.Name) and q.id == n.id for q in ts):
+                                work.append(a.value)
+    return out
+
+
+def prior_from_prior_mode(idx: ProgramIndex, rep: Report):
+    """What a strategy memoises (or returns) as its prior distribution p(u) has to come from a prior-mode evaluation of the model
+    (`self.model.forward(...)`, kernel and mean modules, constants).  `self.model(...)` on an ApproximateGP is the POSTERIOR q(f) of that
+    model: a "prior" taken from it carries the variational covariance S, the KL assembled with it is not a KL against the prior - and the
+    ELBO is not a lower bound."""
+    rep.rule("C14-15", "the distribution a strategy stores as prior_distribution comes from a prior-mode evaluation, never from `self.model(...)` (the posterior of the wrapped model)")
+    n = 0
+    for cls in _strategies(idx):
+        for name, m in sorted(cls.methods.items()):
+            sites = []
+            if name == "prior_distribution":
+                sites += [r.value for r in ast.walk(m.node) if isinstance(r, ast.Return) and r.value is not None]
+            for c in calls_in(m.node):
+                if isinstance(c.func, ast.Name) and c.func.id == "add_to_cache" and len(c.args) >= 3 and isinstance(c.args[1], ast.Constant) and c.args[1].value == "prior_distribution_memo":
+                    sites.append(c.args[2])
+            for e in sites:
+                n += 1
+                roots = _closure_roots(m, e)
+                post = _posterior_calls(m, e)
+                ok = not post
+                rep.add("C14-15", "%s:%s.%s[prior distribution]" % (cls.module.name, cls.qualname, name), m.where, ok,
+                        "derives from %s" % (", ".join(sorted(roots))[:80] or "constants") if ok else
+                        "the distribution stored as the prior p(u) is cut out of `self.model(...)`, the posterior of the wrapped variational model: its covariance contains S. With q(f) set to the exact posterior N x ELBO is -19.271 against an exact log marginal likelihood of -20.480 (excess 0.5 m^T S (I+S)^-1 m): the reported ELBO is not a lower bound", {})
+    rep.floor("C14-15", "prior distributions of the strategies", n, 6)
